@@ -6,6 +6,7 @@ from .values import (Ref, NONE, Obj, Unsupported, FuncVal, BoundMethod, ClassVal
                      SORTS, spec_from_ctype, sortkey, coerce, is_z3, is_real, is_int, is_bool, is_str, is_ref, is_fp,
                      to_real, to_int, to_ref, to_str, to_bool_term, num_args, real_const, concrete)
 from .eng_core import State, Frame
+from .values import SymDict
 from .eng_call import RangeVal, ExcVal, ZipVal, EnumVal
 
 
@@ -329,6 +330,14 @@ class StmtMixin:
                 return
             if isinstance(base, list) and isinstance(concrete(idx), int):
                 base[concrete(idx)] = v
+                return
+            if isinstance(base, SymDict):
+                for n_, (k, _) in enumerate(base.items):
+                    if (isinstance(k, Obj) and isinstance(idx, Obj) and k.ref.eq(idx.ref)) or (is_z3(k) and is_z3(idx) and k.eq(idx)) \
+                            or (not is_z3(k) and not isinstance(k, Obj) and k == idx):
+                        base.items[n_] = (k, v)
+                        return
+                base.items.append((idx, v))
                 return
             if isinstance(base, dict):
                 kc = concrete(idx) if not isinstance(idx, tuple) else tuple(concrete(x) for x in idx)
